@@ -24,6 +24,12 @@ fn neutralise(src: &str) -> String {
                 in_block_doc = true;
             }
             out.push_str(&line.replacen("/*!", "/* ", 1));
+        } else if t.starts_with("#[global_allocator]") {
+            // a program-wide allocator would become the allocator of the whole simulator process
+            // (and, compiled under the shadow `std`, count with atomics that are scheduling points
+            // of the thread scheduler — from threads that are not simulated at all): the static
+            // stays, as an ordinary one
+            out.push_str(&line.replacen("#[global_allocator]", "#[allow(dead_code)]", 1));
         } else if t.starts_with("#![") && t.trim_end().ends_with(']') {
             // single-line inner attribute (lint levels and the like): drop, keep the line
             out.push_str("// ");
@@ -35,7 +41,7 @@ fn neutralise(src: &str) -> String {
     out
 }
 
-const SHADOW: &str = "#[allow(unused_imports)] mod std { pub use crate::seams::shadow_std::*; pub use crate::seams::shadow_std::env; } ";
+const SHADOW: &str = "#[allow(unused_imports)] mod std { pub use crate::seams::shadow_std::*; pub use crate::seams::shadow_std::env; } #[allow(unused_imports, dead_code)] mod walkdir { pub use crate::seams::shim_walkdir::*; } #[allow(unused_imports, dead_code)] mod rayon { pub use crate::seams::shim_rayon::*; } ";
 
 /// Helper modules next to the generators (`mod common;` -> src/bin/common.rs or
 /// src/bin/common/mod.rs): copied alongside, with the same shadow `std` the generator modules get
